@@ -77,6 +77,61 @@ class P3Client(S1Client):
         return S
 
 
+FORMAT_CONVERSIONS = {"array", "asarray", "make_float_array", "reshape", "copy", "astype", "float", "int", "tuple", "list", "atleast_1d", "atleast_2d",
+                      "squeeze", "ascontiguousarray"}
+
+
+def validator_preserves(repo, mod, call):
+    """does the validator called here hand back its argument *as a value* - the argument itself or a format conversion of it (array,
+    float, reshape, copy)?  `return inp.lower()`, a slice or arithmetic on it is a different value.  None = cannot tell (not a repo
+    function / form not recognised)."""
+    r = repo.resolve_name(mod, call_name(call) or "")
+    if not r or r[0] != "func":
+        return None
+    vfn = r[2]
+    if not vfn.args.args:
+        return None
+    p = vfn.args.args[0].arg
+    binds = {}
+    for s_ in ast.walk(vfn):
+        if isinstance(s_, ast.Assign) and len(s_.targets) == 1 and isinstance(s_.targets[0], ast.Name):
+            binds.setdefault(s_.targets[0].id, []).append(s_.value)
+
+    def ok_expr(e, depth=0):
+        if depth > 6:
+            return None
+        if isinstance(e, ast.Constant):
+            return True
+        if isinstance(e, ast.Name):
+            if e.id == p and e.id not in binds:
+                return True
+            if e.id in binds:
+                rs = [ok_expr(v, depth + 1) for v in binds[e.id]]
+                return False if any(x is False for x in rs) else (True if all(x is True for x in rs) else None)
+            return None
+        if isinstance(e, ast.IfExp):
+            rs = [ok_expr(e.body, depth + 1), ok_expr(e.orelse, depth + 1)]
+            return False if any(x is False for x in rs) else (True if all(x is True for x in rs) else None)
+        if isinstance(e, ast.Call):
+            nm = call_name(e) or ""
+            uses_p = [a for a in list(e.args) + [k.value for k in e.keywords] + ([e.func.value] if isinstance(e.func, ast.Attribute) else [])
+                      if any(isinstance(x, ast.Name) and (x.id == p or x.id in binds) for x in ast.walk(a))]
+            if not uses_p:
+                return None
+            if nm in FORMAT_CONVERSIONS or nm.startswith(("check_", "validate_")):
+                return ok_expr(uses_p[0], depth + 1)
+            return False            # some other function / method of the value: lower(), strip(), sorted(), ...
+        if isinstance(e, ast.Tuple):
+            rs = [ok_expr(x, depth + 1) for x in e.elts]
+            return False if any(x is False for x in rs) else None
+        if isinstance(e, (ast.BinOp, ast.Subscript, ast.UnaryOp)):
+            return False if any(isinstance(x, ast.Name) and (x.id == p or x.id in binds) for x in ast.walk(e)) else None
+        return None
+    rets = [ret_value(vfn, r_) for r_ in ast.walk(vfn) if isinstance(r_, ast.Return) and r_.value is not None]
+    rs = [ok_expr(v) for v in rets]
+    return False if any(x is False for x in rs) else (True if rs and all(x is True for x in rs) else None)
+
+
 def p2(repo, res):
     c = repo.cls("BaseTransform")
     names = [n for n in c.methods if n.startswith("rotate_from_")]
@@ -135,11 +190,17 @@ def p2(repo, res):
                     for a in list(ctor.args) + [k.value for k in ctor.keywords]:
                         if not (isinstance(a, ast.Name) and a.id in params):
                             problems.append(f"`{norm(a)}` is handed to R.{ctor.func.attr} instead of the caller's own argument")
-                        elif any(isinstance(s_, (ast.Assign, ast.AugAssign)) and any(isinstance(t, ast.Name) and t.id == a.id
-                                 for t in (s_.targets if isinstance(s_, ast.Assign) else [s_.target]))
-                                 and not (isinstance(s_, ast.Assign) and isinstance(s_.value, ast.Call) and (call_name(s_.value) or "").startswith(("check_", "validate_")))
-                                 for s_ in ast.walk(fn)):
-                            problems.append(f"`{a.id}` is re-bound before it reaches R.{ctor.func.attr}")
+                        else:
+                            for s_ in ast.walk(fn):
+                                if not (isinstance(s_, (ast.Assign, ast.AugAssign)) and any(isinstance(t, ast.Name) and t.id == a.id
+                                        for t in (s_.targets if isinstance(s_, ast.Assign) else [s_.target]))):
+                                    continue
+                                if isinstance(s_, ast.Assign) and isinstance(s_.value, ast.Call) and (call_name(s_.value) or "").startswith(("check_", "validate_")):
+                                    # re-binding through a validator is fine as long as the validator hands the value back unchanged
+                                    if validator_preserves(repo, c.mod, s_.value) is False:
+                                        problems.append(f"`{a.id}` passes through {call_name(s_.value)}(), which returns a transformed value, before it reaches R.{ctor.func.attr}")
+                                    continue
+                                problems.append(f"`{a.id}` is re-bound before it reaches R.{ctor.func.attr}")
                 if n == "rotate_from_angax":
                     # degrees handled by hand: the conversion must be conditional on `degrees`
                     conv = [s for s in ast.walk(fn) if isinstance(s, ast.If) and "degrees" in ast.unparse(s.test)]
@@ -380,7 +441,7 @@ def p7(repo, res):
 
 def run(repo, res, tier):
     res.rules = ["P1 composition/anchoring (FRAME)", "P2 rotate_from_* delegation", "P3 reject-before-mutate", "P4 paired pose writes / who-may-write", "P5 in-place pose writes", "P6 one padding computation",
-                 "P7 None is the single identity rotation"]
+                 "P7 None is the single identity rotation", "P8 no read-only view becomes a pose path"]
     frame_rules.c09_p1(repo, res)
     p2(repo, res)
     p3(repo, res)
@@ -388,6 +449,8 @@ def run(repo, res, tier):
     p4b(repo, res)
     p6(repo, res)
     p7(repo, res)
+    import rules_roview
+    rules_roview.run(repo, res, 'P8')
     import origin_rules
     origin_rules.pose_mutations(repo, res, rule="P5")
     res.assumptions += ["SciPy/NumPy calls after the first in-place write do not raise (shapes are made consistent by path_padding before)",
